@@ -40,6 +40,9 @@ def parseCfg (c : Case) (pre : List (List Ev)) : Option Cfg :=
     (parseConn (c.getD "conn" "publish")).map fun conn => { conn := conn, flags := parseFlags (c.getD "flags" "-"), pre := preOf pre }
   else if api == "share" then
     some { conn := .publish, flags := ⟨true, true, true⟩, pre := preOf pre }
+  -- `-1` = ReplaySubjectUnlimitedBufferSize: the replay subject keeps everything
+  else if api == "sharereplayZ-1" then some { conn := .replayAll, flags := ⟨true, false, true⟩, pre := preOf pre }
+  else if api == "sharereplay-1" then some { conn := .replayAll, flags := ⟨true, false, false⟩, pre := preOf pre }
   else if api.startsWith "sharereplayZ" then
     ((api.drop 12).toString.toNat?).map fun n => { conn := .replay n, flags := ⟨true, false, true⟩, pre := preOf pre }
   else if api.startsWith "sharereplay" then
